@@ -8,6 +8,7 @@ CONSTANTS
   Split = FALSE
   PeekStop = FALSE
   WireGaps = FALSE
+  CutStop = FALSE
 SPECIFICATION Spec
 INVARIANTS NoPanic NoStateClobber ExactlyOneEOFLast TimingExact
 CHECK_DEADLOCK TRUE
